@@ -232,7 +232,7 @@ func (a *c10) isNotifyInstr(in ssa.Instruction, includeCalls bool) bool {
 
 // isSuccessReturn: a return whose error result (if any) may be nil.
 func isSuccessReturn(fn *ssa.Function, in ssa.Instruction) bool {
-	ret, ok := in.(*ssa.Return)
+	ret, ok := core.AsReturn(in)
 	if !ok {
 		return false
 	}
@@ -246,7 +246,7 @@ func isSuccessReturn(fn *ssa.Function, in ssa.Instruction) bool {
 	if errIdx < 0 || errIdx >= len(ret.Results) {
 		return true
 	}
-	v := ret.Results[errIdx]
+	v := core.Res(ret, errIdx)
 	rv := core.ResolveLocalLoad(v)
 	if !mayBeNilErr(rv) {
 		return false
